@@ -280,7 +280,7 @@ def badSubpart (buf : Buf) (i : Nat) : Nat :=
 def utf8Lossy (buf : Buf) (i : Nat) : List UInt8 :=
   if h : i < buf.size then
     match utf8Seq buf i with
-    | some n => if 0 < n then (buf.toList.drop i).take n ++ utf8Lossy buf (i+n) else []
+    | some n => if 0 < n then (buf.extract i (i+n)).toList ++ utf8Lossy buf (i+n) else []
     | none => [0xEF, 0xBF, 0xBD] ++ utf8Lossy buf (i + max 1 (badSubpart buf i))
   else []
 termination_by buf.size - i
